@@ -107,11 +107,9 @@ structure Loaded where
   syms : List (List Byte × Nat) := []
   deriving Repr
 
-/-- the bytes `for (i = 0; i < sh_size; i++) memory->write8(sh_addr + i, file.get_int8())` stores:
-the file's bytes from the offset on, 0xff (EOF as `uint8_t`) once the file has ended -/
-def loadBytes (src : List Byte) (size : Nat) : List Byte :=
-  let avail := src.take size
-  avail ++ List.replicate (size - avail.length) 0xff
+/-- the bytes `for (i = 0; i < sh_size; i++) { ch = file.get_int8(); if (ch == EOF) break; memory->write8(sh_addr + i, ch); }`
+stores: the file's bytes from the offset on, at most `sh_size`, ending where the file ends (fix eaf99e9) -/
+def loadBytes (src : List Byte) (size : Nat) : List Byte := src.take size
 
 def writesAt (addr : Nat) : Nat → List Byte → List (Nat × Byte)
   | _, [] => []
@@ -146,11 +144,15 @@ def readSym (big is32 : Bool) (rest : List Byte) : (Nat × Nat × Nat) × List B
     let (_, r6) := getInt64 big r5
     ((name, value, cval 256 info), r6)
 
-/-- `for (i = 0; i < sh_size; i += sym_size)`: `count` iterations -/
+/-- `for (i = 0; i < sh_size; i += sym_size) { if ((uint64_t)file.tell() + sym_size > file_length) break; ... }`:
+at most `count` = ⌈sh_size / sym_size⌉ iterations (a `uint32_t i` that wraps, or a 64-bit sh_size, only matters after more
+iterations than a file below 2 GiB has symbols), ending at the last complete entry of the file.  The position is
+`file_length - rest.length`, so the test is `rest.length < sym_size`. -/
 def symLoop (file : List Byte) (big is32 : Bool) (strtabOff : Nat) :
     Nat → List Byte → List (List Byte × Nat) → List (List Byte × Nat) × List Byte
   | 0, rest, acc => (acc.reverse, rest)
   | count + 1, rest, acc =>
+    if rest.length < (if is32 then 16 else 24) then (acc.reverse, rest) else
     let ((name, value, info), rest1) := readSym big is32 rest
     let s := getString file (strtabOff + name) rest1
     -- STT_NOTYPE, STT_SECTION, STT_FILE are skipped (the whole st_info byte is compared)
@@ -162,11 +164,9 @@ structure St where
   stop : Nat := 0xffffffff
   writes : List (Nat × Byte) := []
   syms : List (List Byte × Nat) := []
-  /-- a section larger than the cap was met: the model stops (see `read`) -/
-  tooBig : Bool := false
 
 /-- the second loop over the section headers -/
-def sectionLoop (cap : Nat) (file : List Byte) (big is32 : Bool) (shoff : Nat) (shentsize : Int) (stroffset strtabOff : Nat) :
+def sectionLoop (file : List Byte) (big is32 : Bool) (shoff : Nat) (shentsize : Int) (stroffset strtabOff : Nat) :
     Nat → Int → List Byte → St → St
   | 0, _, _, st => st
   | fuel + 1, n, rest, st =>
@@ -174,9 +174,7 @@ def sectionLoop (cap : Nat) (file : List Byte) (big is32 : Bool) (shoff : Nat) (
     let (sh, rest2) := readShdr big is32 rest1
     let name := getString file (stroffset + sh.name) rest2
     let isText := sh.flags / 4 % 2 = 1
-    if (isText ∨ name.take 5 = [46, 100, 97, 116, 97] ∨ name = [46, 118, 101, 99, 116, 111, 114, 115] ∨ sh.type = 2) ∧
-        sh.size > cap then { st with tooBig := true }
-    else if isText ∨ name.take 5 = [46, 100, 97, 116, 97] ∨ name = [46, 118, 101, 99, 116, 111, 114, 115] then
+    if isText ∨ name.take 5 = [46, 100, 97, 116, 97] ∨ name = [46, 118, 101, 99, 116, 111, 114, 115] then
       let u64 := 18446744073709551616
       let (start, stop) :=
         if isText then
@@ -187,28 +185,37 @@ def sectionLoop (cap : Nat) (file : List Byte) (big is32 : Bool) (shoff : Nat) (
         else (st.start, st.stop)
       let src := seek file sh.offset rest2
       let w := writesAt sh.addr 0 (loadBytes src sh.size)
-      sectionLoop cap file big is32 shoff shentsize stroffset strtabOff fuel (n + 1) rest2
+      sectionLoop file big is32 shoff shentsize stroffset strtabOff fuel (n + 1) rest2
         { st with start := start, stop := stop, writes := st.writes ++ w }
     else if sh.type = 2 then
       let symSize := if is32 then 16 else 24
       let src := seek file sh.offset rest2
       let (ys, _) := symLoop file big is32 strtabOff ((sh.size + symSize - 1) / symSize) src []
-      sectionLoop cap file big is32 shoff shentsize stroffset strtabOff fuel (n + 1) rest2 { st with syms := st.syms ++ ys }
-    else sectionLoop cap file big is32 shoff shentsize stroffset strtabOff fuel (n + 1) rest2 st
+      sectionLoop file big is32 shoff shentsize stroffset strtabOff fuel (n + 1) rest2 { st with syms := st.syms ++ ys }
+    else sectionLoop file big is32 shoff shentsize stroffset strtabOff fuel (n + 1) rest2 st
 
-/-- `read_elf(filename, memory, &cpu_type, symbols)` with `*cpu_type` = 0 on entry (what `file_read` passes unless
-`allow_unknown_cpu`).  `cap`: a loaded section or symbol table larger than `cap` bytes is outside the model (`ret = -99`;
-the real loops `for (i = 0; i < sh_size; i++)` then run for minutes, or for ever when sh_size ≥ 2^32: C17's subject);
-the theorems hold for every `cap` the written file fits in. -/
-def read (cap : Nat) (file : List Byte) : Loaded :=
+/-- what `read_elf` has read when it reaches the section header string table: the ELF header fields it keeps -/
+structure HdrR where
+  is32 : Bool
+  big : Bool
+  cpu : Nat
+  shoff : Nat
+  shentsize : Int
+  shnum : Int
+  shstrndx : Int
+  /-- the FILE position after e_shstrndx -/
+  rest : List Byte
+
+/-- the first part of `read_elf`: e_ident and the header fields; `Except.error` = the early `return` value -/
+def readHeader (file : List Byte) : Except Int HdrR :=
   -- file.get_bytes(e_ident, 16): a short file leaves zeros
   let ident := file.take 16 ++ List.replicate (16 - (file.take 16).length) 0
   let rest0 := file.drop 16
-  if ident.take 4 ≠ [0x7f, 69, 76, 70] then { ret := -2 }
+  if ident.take 4 ≠ [0x7f, 69, 76, 70] then .error (-2)
   else
     let is32 : Bool := ident.getD 4 0 ≠ 2
     let dat := ident.getD 5 0
-    if dat ≠ 1 ∧ dat ≠ 2 then { ret := -1 }
+    if dat ≠ 1 ∧ dat ≠ 2 then .error (-1)
     else
       let big : Bool := dat = 2
       let (_, r1) := getInt16 big rest0
@@ -231,14 +238,22 @@ def read (cap : Nat) (file : List Byte) : Loaded :=
       let (shentsizeU, r11) := getInt16 big r10
       let (shnumU, r12) := getInt16 big r11
       let (shstrndxU, r13) := getInt16 big r12
-      let shentsize := toInt32 shentsizeU
-      let shnum := toInt32 shnumU
-      let shstrndx := toInt32 shstrndxU
-      let rest14 := seek file (shoff + toU64 (shstrndx * shentsize) + (if is32 then 16 else 24)) r13
-      let (stroffset, r15) := if is32 then getInt32 big rest14 else getInt64 big rest14
-      let (strtabOff, r16) := findStrtab file big is32 shoff shentsize stroffset shnum.toNat 0 r15
-      let st := sectionLoop cap file big is32 shoff shentsize stroffset strtabOff shnum.toNat 0 r16 {}
-      if st.tooBig then { ret := -99 } else
-      { ret := 0, writes := st.writes, low := st.start, high := st.stop, big := big, cpuType := cpu, syms := st.syms }
+      .ok { is32, big, cpu, shoff, shentsize := toInt32 shentsizeU, shnum := toInt32 shnumU, shstrndx := toInt32 shstrndxU,
+            rest := r13 }
+
+/-- the rest of `read_elf`: `.shstrtab`'s offset, the `.strtab` search, the section loop -/
+def readBody (file : List Byte) (h : HdrR) : Loaded :=
+  let rest14 := seek file (h.shoff + toU64 (h.shstrndx * h.shentsize) + (if h.is32 then 16 else 24)) h.rest
+  let (stroffset, r15) := if h.is32 then getInt32 h.big rest14 else getInt64 h.big rest14
+  let (strtabOff, r16) := findStrtab file h.big h.is32 h.shoff h.shentsize stroffset h.shnum.toNat 0 r15
+  let st := sectionLoop file h.big h.is32 h.shoff h.shentsize stroffset strtabOff h.shnum.toNat 0 r16 {}
+  { ret := 0, writes := st.writes, low := st.start, high := st.stop, big := h.big, cpuType := h.cpu, syms := st.syms }
+
+/-- `read_elf(filename, memory, &cpu_type, symbols)` with `*cpu_type` = 0 on entry (what `file_read` passes unless
+`allow_unknown_cpu`) -/
+def read (file : List Byte) : Loaded :=
+  match readHeader file with
+  | .error e => { ret := e }
+  | .ok h => readBody file h
 
 end NakenVerif.FileIO.ElfReadImpl
